@@ -4,6 +4,9 @@ import IgrisModel.C12.Orig
 import IgrisModel.C12.LemEnd
 import IgrisModel.C12.LemDprint
 import IgrisModel.C12.LemF32
+import IgrisModel.C12.LemEntry
+import IgrisModel.C12.LemAuto
+import IgrisModel.C12.LemTotal
 /-!
   C12 — property theorems.
 
@@ -612,5 +615,233 @@ theorem atof64_mantissa_overflow_witness :
       some (⟨0x7ff0000000000000⟩, 316) ∧
     (⟨none, 49 :: List.replicate 310 48, none, some (101, some true, [51, 49, 48])⟩ : Literal).value = 1 := by
   constructor <;> decide +kernel
+
+/-! ## I. round 3 — every entry point; "no digits -> no conversion"; the counters at their C width
+
+  Since the `fix:` of round 3 `igris_atof64` / `igris_atof32` begin with `has_mantissa_digit`: a text
+  without a digit in its integer part and in its fraction ("", "-", "+", ".", "-.", ".e5", "abc") converts
+  NOTHING — the end is the start, the value 0 — as strtod specifies; `atof64` / `atof32` of the sections
+  above are the rest of the two functions (all their theorems stand).  `L.hasDigit` (Spec level) = the
+  literal has a digit in `ip` or in its fraction.  The grammar clause for EVERY entry point:
+  `end` = end of the literal, value = value of the literal when the literal has a digit; (0, start)
+  otherwise.  ("End of the literal" is the end of the LONGEST prefix of the text that matches the grammar:
+  that is what `Stops L rest` — the tail does not continue the literal — says.) -/
+
+/-- igris_atof64, exact arithmetic, EVERY literal of the grammar and every tail that does not continue it -/
+theorem igris_atof64_grammar (L : Literal) (rest : List Nat) (hwf : L.WF) (hst : Stops L rest) :
+    igrisAtof64 (F := Rat) (L.text ++ rest) =
+      some (if L.hasDigit then (L.value, L.text.length) else (0, 0)) := by
+  unfold igrisAtof64
+  rw [hasMantissaDigit_literal L rest hwf hst]
+  cases h : L.hasDigit
+  · simp only [Bool.false_eq_true, if_false]; rfl
+  · simp only [if_true]; exact atof64_Q L rest hwf hst
+
+/-- both branches are inhabited: "-12.5e-3x" has digits, "-.e5" has none -/
+example : (⟨some true, [49, 50], some [53], some (101, some true, [51])⟩ : Literal).hasDigit = true ∧
+    (⟨some true, [], some [], none⟩ : Literal).hasDigit = false := by decide
+
+/-- "no digits -> no conversion", for EVERY arithmetic instance (in particular the software binary64 /
+    binary32 the driver runs): value `0.0`, end = start -/
+theorem igris_atof64_no_digits {F : Type} [FloatLike F] (L : Literal) (rest : List Nat) (hwf : L.WF)
+    (hst : Stops L rest) (hd : L.hasDigit = false) :
+    igrisAtof64 (F := F) (L.text ++ rest) = some (ofInt 0, 0) := by
+  unfold igrisAtof64
+  rw [hasMantissaDigit_literal L rest hwf hst, hd]
+
+/-- the reported end of igris_atof64 for EVERY arithmetic instance -/
+theorem igris_atof64_end_any_arithmetic {F : Type} [FloatLike F] (L : Literal) (rest : List Nat)
+    (hwf : L.WF) (hst : Stops L rest) :
+    (igrisAtof64 (F := F) (L.text ++ rest)).map (fun x => x.2) =
+      some (if L.hasDigit then L.text.length else 0) := by
+  unfold igrisAtof64
+  rw [hasMantissaDigit_literal L rest hwf hst]
+  cases h : L.hasDigit
+  · simp
+  · simp only [if_true]; exact atof64_end_any_arithmetic L rest hwf hst
+
+/-- igris_atof32 (integer part < 2^32, at most 18 fraction digits: the recorded class) -/
+theorem igris_atof32_grammar_partial (L : Literal) (rest : List Nat) (hwf : L.WF) (hst : Stops L rest)
+    (hip32 : valL L.ip < 2 ^ 32) (hfp18 : L.fracDigits.length ≤ 18) :
+    igrisAtof32 (F := Rat) (D := Rat) id (L.text ++ rest) =
+      some (if L.hasDigit then (L.value, L.text.length) else (0, 0)) := by
+  unfold igrisAtof32
+  rw [hasMantissaDigit_literal L rest hwf hst]
+  cases h : L.hasDigit
+  · simp only [Bool.false_eq_true, if_false]; rfl
+  · simp only [if_true]; exact atof32_Q L rest hwf hst hip32 hfp18
+
+theorem igris_atof32_no_digits {F D : Type} [FloatLike F] [FloatLike D] (cvt : D → F) (L : Literal)
+    (rest : List Nat) (hwf : L.WF) (hst : Stops L rest) (hd : L.hasDigit = false) :
+    igrisAtof32 (D := D) cvt (L.text ++ rest) = some (ofInt 0, 0) := by
+  unfold igrisAtof32
+  rw [hasMantissaDigit_literal L rest hwf hst, hd]
+
+theorem igris_atof32_end_any_arithmetic_partial {F D : Type} [FloatLike F] [FloatLike D] (cvt : D → F)
+    (L : Literal) (rest : List Nat) (hwf : L.WF) (hst : Stops L rest)
+    (hip32 : valL L.ip < 2 ^ 32) (hfp18 : L.fracDigits.length ≤ 18) :
+    (igrisAtof32 (D := D) cvt (L.text ++ rest)).map (fun x => x.2) =
+      some (if L.hasDigit then L.text.length else 0) := by
+  unfold igrisAtof32
+  rw [hasMantissaDigit_literal L rest hwf hst]
+  cases h : L.hasDigit
+  · simp
+  · simp only [if_true]; exact atof32_end_any_arithmetic_partial cvt L rest hwf hst hip32 hfp18
+
+/-- igris_strtod (default build) -/
+theorem igris_strtod_grammar (L : Literal) (rest : List Nat) (hwf : L.WF) (hst : Stops L rest) :
+    igrisStrtod (F := Rat) (L.text ++ rest) =
+      some (if L.hasDigit then (L.value, L.text.length) else (0, 0)) :=
+  igris_atof64_grammar L rest hwf hst
+
+/-- compat/libc `strtod` (default build) -/
+theorem compat_strtod_grammar (L : Literal) (rest : List Nat) (hwf : L.WF) (hst : Stops L rest) :
+    compatStrtod (F := Rat) (L.text ++ rest) =
+      some (if L.hasDigit then (L.value, L.text.length) else (0, 0)) :=
+  igris_atof64_grammar L rest hwf hst
+
+/-- compat/libc `atof` (default build): the value, no end pointer -/
+theorem compat_atof_value (L : Literal) (rest : List Nat) (hwf : L.WF) (hst : Stops L rest) :
+    compatAtof (F := Rat) (L.text ++ rest) = some (if L.hasDigit then L.value else 0) := by
+  unfold compatAtof
+  rw [igris_atof64_grammar L rest hwf hst]
+  cases L.hasDigit <;> rfl
+
+/-- binreader::read_ascii_decimal_float: value and new read position -/
+theorem binreader_float_grammar_partial (L : Literal) (rest : List Nat) (hwf : L.WF) (hst : Stops L rest)
+    (hip32 : valL L.ip < 2 ^ 32) (hfp18 : L.fracDigits.length ≤ 18) :
+    binreaderFloat (F := Rat) (D := Rat) id (L.text ++ rest) =
+      some (if L.hasDigit then (L.value, L.text.length) else (0, 0)) :=
+  igris_atof32_grammar_partial L rest hwf hst hip32 hfp18
+
+/-- igris_strtod and compat strtod / atof of the WITHOUT_ATOF64 build (they call igris_atof32; the float is
+    widened on return: exactly, `id` over exact arithmetic) -/
+theorem strtod32_flavour_grammar_partial (L : Literal) (rest : List Nat) (hwf : L.WF) (hst : Stops L rest)
+    (hip32 : valL L.ip < 2 ^ 32) (hfp18 : L.fracDigits.length ≤ 18) :
+    igrisStrtod32 (F := Rat) (D := Rat) id id (L.text ++ rest) =
+        some (if L.hasDigit then (L.value, L.text.length) else (0, 0)) ∧
+    compatStrtod32 (F := Rat) (D := Rat) id id (L.text ++ rest) =
+        some (if L.hasDigit then (L.value, L.text.length) else (0, 0)) ∧
+    compatAtof32 (F := Rat) (D := Rat) id id (L.text ++ rest) = some (if L.hasDigit then L.value else 0) := by
+  unfold igrisStrtod32 compatStrtod32 compatAtof32
+  rw [igris_atof32_grammar_partial L rest hwf hst hip32 hfp18]
+  cases L.hasDigit <;> exact ⟨rfl, rfl, rfl⟩
+
+/-- the end offsets of ALL entry points for EVERY arithmetic instance, every cast and every widening -/
+theorem entry_points_end_any_arithmetic {F D : Type} [FloatLike F] [FloatLike D] (cvt : D → F) (widen : F → D)
+    (L : Literal) (rest : List Nat) (hwf : L.WF) (hst : Stops L rest) :
+    (igrisStrtod (F := D) (L.text ++ rest)).map (fun x => x.2) = some (if L.hasDigit then L.text.length else 0) ∧
+    (compatStrtod (F := D) (L.text ++ rest)).map (fun x => x.2) = some (if L.hasDigit then L.text.length else 0) ∧
+    (valL L.ip < 2 ^ 32 → L.fracDigits.length ≤ 18 →
+      (binreaderFloat (D := D) cvt (L.text ++ rest)).map (fun x => x.2) = some (if L.hasDigit then L.text.length else 0) ∧
+      (igrisStrtod32 cvt widen (L.text ++ rest)).map (fun x => x.2) = some (if L.hasDigit then L.text.length else 0) ∧
+      (compatStrtod32 cvt widen (L.text ++ rest)).map (fun x => x.2) = some (if L.hasDigit then L.text.length else 0)) := by
+  refine ⟨igris_atof64_end_any_arithmetic L rest hwf hst, igris_atof64_end_any_arithmetic L rest hwf hst, ?_⟩
+  intro h1 h2
+  have h := igris_atof32_end_any_arithmetic_partial cvt L rest hwf hst h1 h2
+  refine ⟨h, ?_, ?_⟩
+  · unfold igrisStrtod32
+    rw [Option.map_map]
+    exact h
+  · unfold compatStrtod32
+    rw [Option.map_map]
+    exact h
+
+/-- what the code does (software binary64, the arithmetic the driver runs) for the texts the property's
+    grammar admits although they are not numbers, and for a point / an exponent letter without digits:
+    "-", ".", ".e5" convert nothing; "5." is 5 with end 2; "5.e" and "5.e+" are 5 with end 2 (the `e` is left) -/
+theorem no_digits_examples :
+    igrisAtof64 (F := F64) [45, 0] = some (⟨0⟩, 0) ∧
+    igrisAtof64 (F := F64) [46, 0] = some (⟨0⟩, 0) ∧
+    igrisAtof64 (F := F64) [46, 101, 53, 0] = some (⟨0⟩, 0) ∧
+    igrisAtof64 (F := F64) [53, 46, 0] = some (⟨0x4014000000000000⟩, 2) ∧
+    igrisAtof64 (F := F64) [53, 46, 101, 0] = some (⟨0x4014000000000000⟩, 2) ∧
+    igrisAtof64 (F := F64) [53, 46, 101, 43, 0] = some (⟨0x4014000000000000⟩, 2) ∧
+    igrisAtof32 (D := F64) F64.toF32 [45, 46, 0] = some ((⟨0⟩ : F32), 0) ∧
+    igrisAtof32 (D := F64) F64.toF32 [53, 46, 0] = some ((⟨0x40a00000⟩ : F32), 2) ∧
+    igrisStrtod32 F64.toF32 F32.toF64 [53, 46, 101, 0] = some ((⟨0x4014000000000000⟩ : F64), 2) := by
+  decide +kernel
+
+/-- the seeded change "no conversion when the LAST CONSUMED character is not a digit" is wrong for "5.":
+    the literal has a digit, so by `igris_strtod_grammar` the end is 2 and the value 5 -/
+example : (⟨none, [53], some [], none⟩ : Literal).hasDigit = true ∧
+    (⟨none, [53], some [], none⟩ : Literal).text = [53, 46] ∧
+    (⟨none, [53], some [], none⟩ : Literal).value = 5 := by decide +kernel
+
+/-- `int e_val`: thanks to the saturation guard `e_val < 100000` the 32-bit accumulator never wraps — the
+    loop over a wrapping C `int` computes exactly what the model's loop over naturals computes, and the
+    result is at most 999999 -/
+theorem exponent_counter_fits_int (p : List Nat) :
+    expDigitsC p 0 = (expDigits p 0).map (fun x => ((x.1 : Int), x.2)) ∧
+    ∀ e r, expDigits p 0 = some (e, r) → e ≤ 999999 :=
+  ⟨expDigitsC_eq p 0 (by omega), fun e r h => expDigits_le p 0 (by omega) e r h⟩
+
+/-- `int d` (fraction digits counted down, exponent added): no wrap for fewer than 2^31 - 10^6 fraction digits -/
+theorem delta_counter_fits_int (nfrac : Nat) (eneg : Bool) (ev : Nat) (he : ev ≤ 999999)
+    (hn : nfrac ≤ 2146483648) :
+    deltaC nfrac eneg (ev : Int) = (if eneg then -(ev : Int) else ev) - nfrac :=
+  deltaC_eq nfrac eneg ev he hn
+
+example : deltaC 307201 true 999999 = -1307200 := by decide
+
+/-! ## J. round 3 — the automatic-precision table and the one-unit region -/
+
+/-- the table of `precision < 0`, stated on the VALUE of the (finite, non-negative or not) binary32 argument and
+    independently of the model's helper: 6 digits below 1, 5 below 10, 4 below 100, 3 below 1000, 2 below 10000,
+    1 below 100000, none from there on (the comparisons `f < 10.0` ... are exact: the thresholds are representable
+    and the software comparison is the comparison of the values, `sfLt_val`) -/
+theorem auto_precision_table (y : F32) (hy : y.Fin) :
+    (y.val < 1 ∧ autoPrec y = 6) ∨ (1 ≤ y.val ∧ y.val < 10 ∧ autoPrec y = 5) ∨
+    (10 ≤ y.val ∧ y.val < 100 ∧ autoPrec y = 4) ∨ (100 ≤ y.val ∧ y.val < 1000 ∧ autoPrec y = 3) ∨
+    (1000 ≤ y.val ∧ y.val < 10000 ∧ autoPrec y = 2) ∨ (10000 ≤ y.val ∧ y.val < 100000 ∧ autoPrec y = 1) ∨
+    (100000 ≤ y.val ∧ autoPrec y = 0) :=
+  autoPrec32_spec y hy
+
+/-- AUTOMATIC PRECISION is always inside the one-unit region: for EVERY finite binary32 `x` with `|x| < 2^31`
+    and every negative `precision` igris_f32toa prints `p` = table value fraction digits and the printed number
+    is within ONE unit of the last printed digit of `|x|` (the hypothesis `10^p (|x|+2) <= 2^23` of
+    `ftoa_within_one_unit_partial` is discharged by the table; for p = 0 the integer part is the exact truncation) -/
+theorem ftoa_auto_precision_within_one_unit (x : F32) (prec : Int) (hauto : prec < 0) (hx : x.Fin)
+    (hr : absQ x.val < 2147483648) :
+    ∃ (p : Nat) (ip fr : List Nat),
+      p = autoPrec (if lt x (ofInt 0) then FloatLike.neg x else x) ∧
+      f32toa x prec = some ((if x.val < 0 then [45] else []) ++ ip ++ (if p ≠ 0 then 46 :: fr else [])) ∧
+      fr.length = p ∧
+      absQ x.val * (10 : Rat) ^ p - 1 < ((valL (ip ++ fr) : Nat) : Rat) ∧
+      ((valL (ip ++ fr) : Nat) : Rat) ≤ absQ x.val * (10 : Rat) ^ p + 1 :=
+  ftoa_auto_core x prec hauto hx hr
+
+/-- the hypotheses are satisfiable: 0x42c80001 (100.0000076...) with precision -1 -/
+example : ((-1 : Int) < 0) ∧ (⟨0x42c80001⟩ : F32).Fin ∧ absQ (⟨0x42c80001⟩ : F32).val < 2147483648 := by
+  refine ⟨by decide, ?_, by decide +kernel⟩
+  unfold F32.Fin FinEnc; decide +kernel
+
+/-! ## K. round 3 — totality of the double parsers on NUL-terminated texts; the twin of igris_ftoa -/
+
+/-- TOTALITY (next to the grammar theorems, which are about texts of the form literal ++ tail): for EVERY
+    arithmetic instance and EVERY text that contains a NUL — whether or not it starts with a literal —
+    igris_atof64 is defined (the model's `none`, a read behind the allocation, does not occur: nothing behind the
+    NUL is read) and the reported end is the length of a NUL-free prefix of the text, i.e. the end pointer lies
+    inside the text, at or before the first NUL -/
+theorem igris_atof64_total {F : Type} [FloatLike F] (s : List Nat) (h : 0 ∈ s) :
+    ∃ (v : F) (pre r : List Nat), s = pre ++ r ∧ 0 ∉ pre ∧ 0 ∈ r ∧ igrisAtof64 s = some (v, pre.length) :=
+  igrisAtof64_total s h
+
+example : (0 : Nat) ∈ [45, 46, 120, 0, 7] := by decide
+
+/-- the same for igris_strtod, compat strtod and compat atof (default build) -/
+theorem double_entry_points_total {F : Type} [FloatLike F] (s : List Nat) (h : 0 ∈ s) :
+    (∃ (v : F) (pre r : List Nat), s = pre ++ r ∧ 0 ∉ pre ∧ 0 ∈ r ∧ igrisStrtod s = some (v, pre.length)) ∧
+    (∃ (v : F) (pre r : List Nat), s = pre ++ r ∧ 0 ∉ pre ∧ 0 ∈ r ∧ compatStrtod s = some (v, pre.length)) ∧
+    (∃ v : F, compatAtof s = some v) := by
+  refine ⟨igrisAtof64_total s h, igrisAtof64_total s h, ?_⟩
+  obtain ⟨v, pre, r, _, _, _, e⟩ := igrisAtof64_total (F := F) s h
+  exact ⟨v, by unfold compatAtof; rw [e]; rfl⟩
+
+/-- igris_ftoa of the WITHOUT_ATOF64 build (argument type float32_t: a double is converted at the call) is the
+    same function of a double argument as igris_f64toa / igris_ftoa of the default build: `f64toa_error_bound`
+    and the renderer theorems apply to it verbatim -/
+theorem igris_ftoa32_is_f64toa {F D : Type} [FloatLike F] (cvt : D → F) (d : D) (p : Int) :
+    igrisFtoa32 cvt d p = f64toa cvt d p := rfl
 
 end Igris.C12
